@@ -253,6 +253,9 @@ func main() {
 					rf.Ops = b
 					rf.OpsCount = len(*liveOps)
 					rf.Violation.Features = opFeatures(*liveOps)
+					if sc, ok := liveCfg.(*SqlCfg); ok {
+						rf.Violation.Features = sqlFeatures(sc, *liveOps)
+					}
 				}
 				rep.Viol = []ReplayFile{rf}
 				if flProp == "C19" {
